@@ -69,7 +69,7 @@ class Rig:
     """one listener under test + the line writer"""
 
     def __init__(self, loop: RigLoop) -> None:
-        from async_upnp_client import advertisement, search, ssdp
+        from async_upnp_client import advertisement, search, ssdp, ssdp_listener
         from async_upnp_client.ssdp_listener import SsdpDeviceTracker, SsdpListener
 
         self.loop = loop
@@ -77,14 +77,21 @@ class Rig:
         self.lines: List[str] = []
         self.ids: Dict[str, int] = {}
         self.tags: set = set()
-        self._mods = (advertisement, search, ssdp)
-        self._saved = (advertisement.get_ssdp_socket, search.get_ssdp_socket, ssdp.datetime)
+        self._mods = (advertisement, search, ssdp, ssdp_listener)
+        self._saved = (advertisement.get_ssdp_socket, search.get_ssdp_socket, ssdp.datetime, ssdp_listener.datetime)
         rig = self
 
-        class FakeNow:
-            @staticmethod
-            def now(tz=None):
+        class FakeNow(datetime):
+            """the wall clock of both modules: local time is the virtual clock; UTC lies 9 h behind (so that a
+            library that confuses the two is seen)"""
+
+            @classmethod
+            def now(cls, tz=None):
                 return BASE + rig.now_us * US
+
+            @classmethod
+            def utcnow(cls):
+                return BASE + rig.now_us * US - timedelta(hours=9)
 
         def fake_socket(source, target):
             return _Sock(("192.168.1.2", 1900)), source, target
@@ -92,13 +99,14 @@ class Rig:
         advertisement.get_ssdp_socket = fake_socket
         search.get_ssdp_socket = fake_socket
         ssdp.datetime = FakeNow
+        ssdp_listener.datetime = FakeNow
         self.tracker = SsdpDeviceTracker()
         self.listener = SsdpListener(async_callback=self._acb, callback=self._cb, device_tracker=self.tracker, loop=loop)
         self.captured: Optional[Tuple] = None
 
     def restore(self) -> None:
-        advertisement, search, ssdp = self._mods
-        advertisement.get_ssdp_socket, search.get_ssdp_socket, ssdp.datetime = self._saved
+        advertisement, search, ssdp, ssdp_listener = self._mods
+        advertisement.get_ssdp_socket, search.get_ssdp_socket, ssdp.datetime, ssdp_listener.datetime = self._saved
 
     async def start(self) -> None:
         await self.listener.async_start()
@@ -192,8 +200,16 @@ class Rig:
             self.lines.append(f"post {self.look(*self.captured)}")
         self.lines.append(self.snap())
 
-    async def purge(self, ts_us: int) -> None:
-        self.tracker.purge_devices(BASE + ts_us * US)
+    async def purge(self, ts_us: int, wall: bool = False) -> None:
+        if wall:  # the no-argument form applications call: "purge now" (wall clock = the virtual clock)
+            self.now_us = ts_us
+            try:
+                self.tracker.purge_devices()
+            except Exception as e:  # noqa: BLE001
+                self.lines.append(f"exc {type(e).__name__}")
+            self.tags.add("ev:purge-wallclock")
+        else:
+            self.tracker.purge_devices(BASE + ts_us * US)
         self.lines.append(f"purge {ts_us}")
         self.lines.append(self.snap())
         self.tags.add("ev:purge")
@@ -224,6 +240,8 @@ def run_ops(ops: List[Any]) -> Tuple[List[str], List[str]]:
                     await rig.packet(sock, int(ts), bytes.fromhex(hexdata), tuple(addr))
                 elif op[0] == "purge":
                     await rig.purge(int(op[1]))
+                elif op[0] == "purge0":
+                    await rig.purge(int(op[1]), wall=True)
             return rig.lines
 
         lines = loop.run_until_complete(go())
@@ -277,7 +295,7 @@ GOOD_LOCS = [
 ]
 BAD_LOCS = ["http://127.0.0.1:80/d", "http://[::1]:80/d", "http://169.254.7.7/d", "ftp://192.168.1.10/d", "", "xhttp://192.168.1.10/",
             "HTTP://192.168.1.10/"]
-CACHE = [None, "max-age=1", "max-age=5", "max-age=1800", "max-age = 5", "MAX-AGE=7", "no-cache", "max-age=0",
+CACHE = [None, "max-age=1", "max-age=5", "max-age=1800", "max-age=3600", "max-age=7200", "max-age=86400", "max-age=1000000", "max-age = 5", "MAX-AGE=7", "no-cache", "max-age=0",
          "public, max-age=30", "max-age=", "xmax-age=4, max-age=9", "max-age=007", "max-age=12abc", "Max-Age \t= \t3, x",
          "no-store, MAX-AGE=2;q", "m=1, ma=2, max-age-x=3"]
 # saturation (C02's fixes): 10 digits (representable), 12 digits (valid_to beyond datetime.max), the timedelta boundary,
@@ -285,11 +303,12 @@ CACHE = [None, "max-age=1", "max-age=5", "max-age=1800", "max-age = 5", "MAX-AGE
 HUGE = ["max-age=9999999999", "max-age=999999999999", "max-age=86399999999999", "max-age=86400000000000",
         "max-age=" + "7" * 20, "max-age=" + "1" * 4301, "max-age=" + "0" * 4300 + "5", "max-age=" + "0" * 4299 + "5",
         "max-age=251824463999", "max-age=251824464000"]
-GAPS_S = [0, 0, 1, 1, 4, 6, 2000, -1, 899, 900, 901, 5, 7, 30, 1799, 1801, -5]
+GAPS_S = [0, 0, 1, 1, 4, 6, 2000, -1, 899, 900, 901, 5, 7, 30, 1799, 1801, -5, 3000, 5000, 50000, 900000]
 EXTRA = [
     [], [["BOOTID.UPNP.ORG", "1"]], [["BOOTID.UPNP.ORG", "2"]], [["Bootid.upnp.org", "1"]], [["bootid.upnp.org", "2"]],
     [["CONFIGID.UPNP.ORG", "7"]], [["CONFIGID.UPNP.ORG", "8"], ["BOOTID.UPNP.ORG", "1"]],
-    [["X-Custom", "a"]], [["x-custom", "b"]], [["SERVER", "Linux UPnP/1.0 x/1"]], [["SERVER", "other/2"]],
+    [["X-Custom", "a"]], [["x-custom", "b"]], [["X-Custom", "abc"]], [["X-Custom", "ABC"]], [["x-custom", "Abc"]],
+    [["X-Custom", "abc "]], [["X-Custom", "abcd"]], [["BOOTID.UPNP.ORG", "1 "]], [["CONFIGID.UPNP.ORG", "A7"]], [["CONFIGID.UPNP.ORG", "a7"]], [["SERVER", "Linux UPnP/1.0 x/1"]], [["SERVER", "other/2"]],
     [["DATE", "Mon, 01 Jan 2020 00:00:00 GMT"]], [["DATE", "Tue"]], [["_private", "1"]], [["_private", "2"]],
     [["EXT", ""]], [["HOST", "239.255.255.250:1900"]],
 ]
@@ -338,7 +357,7 @@ def rand_valid(rng, ts, udns=UDNS, types=TYPES):
     udn = rng.choice(udns)
     ty = rng.choice(types)
     loc, addr = rng.choice(GOOD_LOCS[:4]) if rng.random() < 0.8 else rng.choice(GOOD_LOCS)
-    cache = rng.choice(CACHE[:4]) if rng.random() < 0.7 else rng.choice(CACHE)
+    cache = rng.choice(CACHE[:8]) if rng.random() < 0.7 else rng.choice(CACHE)
     if rng.random() < 0.04:
         cache = rng.choice(HUGE)
     extra = rng.choice(EXTRA[:7]) if rng.random() < 0.7 else rng.choice(EXTRA)
@@ -415,11 +434,40 @@ def rand_history(rng, n: int, p_invalid=0.15, p_purge=0.12, udns=UDNS, types=TYP
         ts = clamp(ts + gap)
         r = rng.random()
         if r < p_purge:
-            ops.append(["purge", ts])
+            ops.append([rng.choice(["purge", "purge0"]), ts])
         elif r < p_purge + p_invalid:
             ops.append(rand_invalid(rng, ts))
         else:
             ops.append(rand_valid(rng, ts, udns, types))
+    return ops
+
+
+def many_devices_history(rng, ndev: int) -> List[Any]:
+    """`ndev` devices (UDNs from a counter) announced within seconds of each other with a long max-age, then a few
+    purges / refreshes / byebyes while all of them are still valid: every one must stay known"""
+    ts = 0
+    ops = []
+    for i in range(ndev):
+        ts += rng.choice([0, 0, 1]) * SEC
+        udn = f"uuid:many-{i:04d}"
+        loc = f"http://10.{i // 250}.{i % 250}.7:80/d"
+        addr = [f"10.{i // 250}.{i % 250}.7", 1900]
+        cache = rng.choice(["max-age=1800", "max-age=3600", None])
+        if rng.random() < 0.5:
+            ops.append(mk_search(ts, udn, TYPES[0], loc, addr, cache, []))
+        else:
+            ops.append(mk_notify(ts, "ssdp:alive", udn, TYPES[0], loc, addr, cache, []))
+    for _ in range(6):
+        ts += rng.choice([1, 30, 200]) * SEC
+        i = rng.randrange(ndev)
+        c = rng.randrange(4)
+        if c == 0:
+            ops.append([rng.choice(["purge", "purge0"]), ts])
+        elif c == 1:
+            ops.append(mk_notify(ts, "ssdp:byebye", f"uuid:many-{i:04d}", TYPES[0], None, [f"10.{i // 250}.{i % 250}.7", 1900], None, []))
+        else:
+            ops.append(mk_search(ts, f"uuid:many-{i:04d}", TYPES[0], f"http://10.{i // 250}.{i % 250}.7:80/d",
+                                 [f"10.{i // 250}.{i % 250}.7", 1900], "max-age=1800", []))
     return ops
 
 
